@@ -8,6 +8,22 @@ TRUST = ("Python/numpy semantics; the harness's own oracle code in /verif/mc; th
          "stated in the evidence file (nothing is claimed outside them)")
 
 CHECKS = {
+    "C12": dict(engine="lp-metamorphic", design_ref="3/C12",
+        technique="every single perturbation from a fixed menu applied to every captured LP instance (first and last people-maximising round of each enumerated run), each solved by the real Optimizer.optimize_to_humans; metamorphic laws as oracle",
+        text="For each captured instance: every supply kind x month bucket +5 % of monthly need, each retail waste -5 points, feed/biofuel charge +1 % per bucket, common scale x0.5/x3: percent fed must not decrease / not increase / stay equal (1e-5 relative). Exact mathematical consequences of a correct formulation, checked on every enumerated instance rather than one sweep.",
+        note=TRUST + "; an infeasible perturbed programme has no value and is counted, not judged"),
+    "C14": dict(engine="histories", design_ref="3/C14",
+        technique="sequences(d): every ordered sequence (d<=2 quick, d<=3 thorough, repeats allowed) over a pool of 6 runs differing in every process-global the code touches, each history in one fresh process; differential oracle: bit-for-bit equality with the run alone",
+        text="Result digest (headline, every monthly series, herd dictionaries) of each run at the end of every history equals the digest of the same run alone in a fresh process, also repeated and under other PYTHONHASHSEED values; caller's option dictionaries unmodified; process-global settings fingerprinted after each run.",
+        note=TRUST + "; results are bit-for-bit reproducible on the unchanged tree (measured)"),
+    "C15": dict(engine="aggregate", design_ref="3/C15",
+        technique="full product of selection patterns (absent / named / '!'-named per country over a 4-country universe: 81 lists) x 3 fraction tables through the real run_model_no_trade with the per-country step replaced by a stand-in; conformance of the stand-in on real unstubbed runs",
+        text="Aggregate == sum(pop x min(1,f)) / sum(pop) over exactly the selected rows, within [0,1]; exclusion lists run all other rows, inclusion and mixed lists only the named ones; every selected country once in the results.",
+        note=TRUST + "; the stand-in replaces only run_optimizer_for_country"),
+    "C17": dict(engine="imports", design_ref="3/C17",
+        technique="all 21 import scripts re-run in a scratch copy of data/ with processed_data/ emptied first (byte comparison with shipped files); every cell of the combined table against the domain rules; full product on the averaging helper",
+        text="Regenerated processed tables and the combined table are byte-identical to the shipped ones; 164 x 211 cells satisfy completeness/seasonality/fraction/reduction/sign rules; weighted_average_percentages over every vector of length <= 3/4 from 9 values x every quarter-grid weight vector returns the renormalised mean of the valid inputs or the sentinel iff none carries weight.",
+        note=TRUST + "; raw data files are the given input"),
     "C01": dict(engine="pipeline", design_ref="3/C01",
         technique="bounded exhaustive enumeration of configurations (presets x all countries; every single option deviation; thorough: every pair) through the real three-round run; ledger audit of every solved allocation, written from the supplies, on every (round, month)",
         text="Every linear programme the model builds inside the enumerated configuration space is audited after its last solve: non-negativity, stored food / crops / meat cumulative balances, monthly SCP and sugar caps, the seaweed growth-and-harvest recurrence with density and area bounds, feed/biofuel totals vs the charged series or ceilings, feed never rising in the feed round. The audit is derived from what physically exists each month, not from the model's own constraint objects, so a missing or too-weak balance shows.",
@@ -125,6 +141,10 @@ def main():
             {"name": "options", "path": "mc/props/c13.py", "serves_properties": ["C13"], "kind_free_text": "explicit-state search over the exactly-once flag sets of a real Scenarios object; dispatcher deviations against a reference table"},
             {"name": "pipeline", "path": "mc/pipeline.py", "serves_properties": ["C01", "C02", "C03", "C04", "C05", "C16", "C18"],
              "kind_free_text": "bounded exhaustive enumeration of (country, option dictionary) through the real three-round run with all monitors attached; results cached per source tree in /verif/.cache"},
+            {"name": "lp-metamorphic", "path": "mc/props/c12.py", "serves_properties": ["C12"], "kind_free_text": "menu-exhaustive perturbation of captured LP instances on the real optimizer"},
+            {"name": "histories", "path": "mc/props/c14.py", "serves_properties": ["C14"], "kind_free_text": "exhaustive run histories up to depth d, one fresh process per history"},
+            {"name": "aggregate", "path": "mc/props/c15.py", "serves_properties": ["C15"], "kind_free_text": "product of selection patterns through run_model_no_trade with a stand-in at the per-country seam"},
+            {"name": "imports", "path": "mc/props/c17.py", "serves_properties": ["C17"], "kind_free_text": "re-execution of the import pipeline in a scratch copy + cell rules + helper product"},
         ],
         "checks": checks,
         "not_applicable": na,
